@@ -31,6 +31,7 @@ type Spec struct {
 	ExtraRun    string
 	ExtraRace   bool
 	ExtraShards int
+	ExtraEngine string // engine of the extra pass when it differs from Engine
 	LevelText        string
 	LevelNote        string
 	Technique        string
@@ -139,6 +140,7 @@ var specs = map[string]Spec{
 		MaxSamples:  2,
 	},
 	"C07": {
+		ExtraEngine: "wire", ExtraRun: "^TestAssembly$", ExtraShards: 8,
 		Engine: "fwdsim", Run: "^TestLCM$", Race: false,
 		QuickShards: 16, ThoroughShards: 16, QuickWatchdog: 8 * time.Minute, ThoroughWatchdog: 60 * time.Minute,
 		Level:     "exploration",
@@ -184,6 +186,7 @@ var specs = map[string]Spec{
 		MaxSamples:  2,
 	},
 	"C12": {
+		ExtraEngine: "wire", ExtraRun: "^TestAssembly$", ExtraShards: 2,
 		Engine: "xlate", Run: "^TestNamespace$", Race: false,
 		QuickShards: 16, ThoroughShards: 16, QuickWatchdog: 8 * time.Minute, ThoroughWatchdog: 60 * time.Minute,
 		Level:     "exploration",
@@ -198,6 +201,7 @@ var specs = map[string]Spec{
 		MaxSamples:  2,
 	},
 	"C13": {
+		ExtraEngine: "wire", ExtraRun: "^TestAssembly$", ExtraShards: 2,
 		Engine: "xlate", Run: "^TestFidelity$", Race: false,
 		QuickShards: 16, ThoroughShards: 16, QuickWatchdog: 8 * time.Minute, ThoroughWatchdog: 60 * time.Minute,
 		Level:     "exploration",
@@ -212,6 +216,7 @@ var specs = map[string]Spec{
 		MaxSamples:  2,
 	},
 	"C14": {
+		ExtraEngine: "wire", ExtraRun: "^TestAssembly$", ExtraShards: 2,
 		Engine: "xlate", Run: "^TestSA$", Race: false,
 		QuickShards: 16, ThoroughShards: 16, QuickWatchdog: 8 * time.Minute, ThoroughWatchdog: 60 * time.Minute,
 		Level:     "exploration",
@@ -226,6 +231,7 @@ var specs = map[string]Spec{
 		MaxSamples:  2,
 	},
 	"C16": {
+		ExtraEngine: "wire", ExtraRun: "^TestAssembly$", ExtraShards: 2,
 		Engine: "xlate", Run: "^TestACL$", Race: false,
 		QuickShards: 16, ThoroughShards: 16, QuickWatchdog: 8 * time.Minute, ThoroughWatchdog: 60 * time.Minute,
 		Level:     "exploration",
